@@ -346,8 +346,107 @@ fn run_ctx<Ctx: Cx>(rep: &Report, ctx: &str, tap: bool, n_all: usize, n_nb: usiz
     }
 }
 
+/// The same structure reached by different construction routes - built from the AST, parsed from
+/// its text, decoded from its script with the key hashes substituted back, translated by the identity
+/// mapping, cloned - over concrete keys (compressed, uncompressed, mixed, x-only): all of them are one
+/// value for ==, cmp, partial_cmp and hash.
+macro_rules! routes {
+    ($rep:expr, $ctxname:expr, $ctx:ty, $pk:ty, $tap:expr, $n:expr, $envs:expr) => {{
+        use miniscript::{ForEachKey, ToPublicKey, Translator};
+        struct Ident;
+        impl Translator<$pk> for Ident {
+            type TargetPk = $pk;
+            type Error = ();
+            fn pk(&mut self, pk: &$pk) -> Result<$pk, ()> { Ok(pk.clone()) }
+            fn sha256(&mut self, h: &bitcoin::hashes::sha256::Hash) -> Result<bitcoin::hashes::sha256::Hash, ()> { Ok(*h) }
+            fn hash256(&mut self, h: &miniscript::hash256::Hash) -> Result<miniscript::hash256::Hash, ()> { Ok(*h) }
+            fn ripemd160(&mut self, h: &bitcoin::hashes::ripemd160::Hash) -> Result<bitcoin::hashes::ripemd160::Hash, ()> { Ok(*h) }
+            fn hash160(&mut self, h: &bitcoin::hashes::hash160::Hash) -> Result<bitcoin::hashes::hash160::Hash, ()> { Ok(*h) }
+        }
+        let rep: &Report = $rep;
+        let te = explore::<$ctx>($n, Alphabet::Small, $tap);
+        let mut pairs = 0u64;
+        for m in te.all() {
+            let t = walk(m).relabel_distinct();
+            for (envname, env) in $envs.iter() {
+                let a = match build::<$pk, $ctx>(&t, env) {
+                    Ok(a) => a,
+                    Err(_) => continue,
+                };
+                let mut objs: Vec<(&'static str, Miniscript<$pk, $ctx>)> = vec![];
+                if let Ok(b) = <Miniscript<$pk, $ctx> as std::str::FromStr>::from_str(&a.to_string()).or_else(|_| Miniscript::<$pk, $ctx>::from_str_insane(&a.to_string())) {
+                    objs.push(("parsed", b));
+                }
+                if let Ok(c) = Miniscript::<$pk, $ctx>::decode_consensus(&a.encode()) {
+                    let mut map = std::collections::BTreeMap::new();
+                    a.for_each_key(|k| {
+                        let h = if $tap {
+                            <bitcoin::hashes::hash160::Hash as bitcoin::hashes::Hash>::hash(&k.to_x_only_pubkey().serialize())
+                        } else {
+                            k.to_pubkeyhash(miniscript::SigType::Ecdsa)
+                        };
+                        map.insert(h, k.clone());
+                        true
+                    });
+                    objs.push(("decoded+substituted", c.substitute_raw_pkh(&map)));
+                }
+                if let Ok(d) = a.translate_pk(&mut Ident) {
+                    objs.push(("translated", d));
+                }
+                objs.push(("cloned", a.clone()));
+                objs.push(("built", a));
+                let sx = walk(&objs.last().unwrap().1).sexpr();
+                let objs: Vec<_> = objs.into_iter().filter(|(_, o)| walk(o).sexpr() == sx).collect();
+                rep.count("construction_routes", objs.len() as u64);
+                for (na, x) in &objs {
+                    for (nb, y) in &objs {
+                        pairs += 1;
+                        let mut bad = vec![];
+                        if x != y {
+                            bad.push("== is false");
+                        }
+                        if x.cmp(y) != Ordering::Equal {
+                            bad.push("cmp is not Equal");
+                        }
+                        if x.partial_cmp(y) != Some(Ordering::Equal) {
+                            bad.push("partial_cmp is not Some(Equal)");
+                        }
+                        if h64(x) != h64(y) {
+                            bad.push("hashes differ");
+                        }
+                        if x.to_string() != y.to_string() {
+                            bad.push("string forms differ");
+                        }
+                        if !bad.is_empty() {
+                            rep.violation(Violation {
+                                key: format!("routes|{}|{}|{}|{}|{}", $ctxname, envname, sx, na, nb),
+                                class: format!("same-structure-not-equal-{}-vs-{}", na, nb),
+                                what: format!("{} ({}) and {} ({}) have the same structure but: {}", x, na, y, nb, bad.join(", ")),
+                                case: json!({"ctx": $ctxname, "keys": envname, "model": sx}),
+                            });
+                        }
+                    }
+                }
+            }
+        }
+        pairs
+    }};
+}
+
 pub fn run(tier: Tier) -> i32 {
     let rep = Report::new("C19", tier);
+    {
+        use crate::keys::{KeyForm, PkEnv, XEnv};
+        let n = tier.pick(4, 5);
+        let c = [("compressed", PkEnv { form: KeyForm::Compressed })];
+        let cu = [("compressed", PkEnv { form: KeyForm::Compressed }), ("uncompressed", PkEnv { form: KeyForm::Uncompressed }), ("mixed", PkEnv { form: KeyForm::Mixed })];
+        let x = [("x-only", XEnv)];
+        let mut p: u64 = routes!(&rep, "segwitv0", Segwitv0, bitcoin::PublicKey, false, n, c);
+        p += routes!(&rep, "legacy", Legacy, bitcoin::PublicKey, false, n, cu);
+        p += routes!(&rep, "bare", miniscript::BareCtx, bitcoin::PublicKey, false, n, cu);
+        p += routes!(&rep, "tap", Tap, bitcoin::secp256k1::XOnlyPublicKey, true, n, x);
+        rep.count("construction_route_pairs", p);
+    }
     let (n_all, n_nb) = tier.pick((4, 5), (5, 6));
     let mut tot = Stats { states: 0, transitions: 0, pairs: 0, triples: 0, neighbour_pairs: 0 };
     for s in [
